@@ -14,7 +14,9 @@ Ops15 == {Op("String", "ok"), Op("String", "bad"), Op("String", "missing"), Op("
          \cup (IF Mode # "response" THEN {Op("String", "bad-in-loop")} ELSE {})     \* fails inside a loop after some passes produced output
          \cup (IF Mode = "response" THEN {Op("Response", pg) : pg \in {"bad-in-component", "bad-in-layout", "bad-at-start", "bad-in-loop"}} ELSE {})
          \cup (IF Mode = "history" THEN {Op("String", "setvar"), Op("String", "getvar"), Op("EvalString", "setvar"), Op("EvalString", "getvar"),
-                                         Op("Response", "getvar")} ELSE {})
+                                         Op("Response", "getvar"),
+                                         \* the data holds a value of one of two different struct types that are both called "row"
+                                         Op("String", "row1"), Op("String", "row2"), Op("EvalString", "row1"), Op("EvalString", "row2")} ELSE {})
 Cfgs == {[dir |-> "t", ext |-> ".tw", errorPage |-> e, debug |-> d] : e \in {"", "err"}, d \in BOOLEAN}
 
 Init == /\ \E c \in Cfgs : ApiInit(c)
